@@ -120,10 +120,12 @@ theorem WInv_poll {F : Bytes} (cfg : Cfg Msg) {c : Conn Msg} (e : PollEv) (h : W
       · split
         · exact WInv_disconnect ht
         · split
-          · split
-            · exact WInv_disconnect ht
-            · refine WInv_of_same (c := timeoutCheck cfg c e.now) rfl (fun _ => ⟨rfl, ?_⟩) ht
+          · have hconn : WInv F ({ timeoutCheck cfg c e.now with state := .connected, lastRead := e.now } : Conn Msg) := by
+              refine WInv_of_same (c := timeoutCheck cfg c e.now) rfl (fun _ => ⟨rfl, ?_⟩) ht
               assumption
+            split
+            · exact WInv_disconnect hconn
+            · exact hconn
           · have key : ∀ c1 : Conn Msg, WInv F c1 →
                 WInv F (if c1.state = .disconnected then c1
                         else if e.rd then readPart cfg c1 e.now e.recvs else c1) := by
